@@ -572,7 +572,10 @@ def jacobian_fd(run, im, rng, ncases):
 
 def main(prop, tier, seed):
     run = common.Run(prop, tier, seed)
-    aud = common.audit(prop, thorough=(tier == "thorough"))
+    if prop == "C06":
+        aud = common.audit_with_arith(prop, "C06Gen", thorough=(tier == "thorough"))
+    else:
+        aud = common.audit(prop, thorough=(tier == "thorough"))
     common.use_repo_source()
     thorough = tier == "thorough"
     drv = common.Driver()
